@@ -2,7 +2,8 @@ import Reduino.Lang.Tr
 /- C++ text of a translated program, line by line, in the emitter's own format (compared whitespace-normalised). -/
 namespace Reduino.Lang
 
-def BinOp.sym : BinOp → String | .add => "+" | .sub => "-" | .mul => "*" | .band => "&" | .bor => "|" | .bxor => "^"
+def BinOp.sym : BinOp → String
+  | .add => "+" | .sub => "-" | .mul => "*" | .band => "&" | .bor => "|" | .bxor => "^" | .fdiv => "/" | .fmod => "%"
 /-- the emitter's tokens for unary minus and `not` (the `_UN` table) -/
 def negSym : String := "-"
 def notSym : String := "!"
